@@ -1,6 +1,8 @@
 package printer
 
 import (
+	"reflect"
+
 	"github.com/graphql-go/graphql/language/ast"
 	"github.com/graphql-go/graphql/language/parser"
 	"github.com/graphql-go/graphql/language/source"
@@ -108,4 +110,183 @@ func ZZ_C08_description() {
 	zzAssert(zzStrEq(got.Value, d), "description changed by the round trip")
 	zzAssert(zzStrEq(zzPrintString(doc2), text), "print is not stable after one round")
 	zzCover("end")
+}
+
+// zzOpt appends s when bit i of mask is set.
+func zzOpt(mask, i int, s string) string {
+	if mask&(1<<uint(i)) != 0 {
+		return s
+	}
+	return ""
+}
+
+// zzOptionalDoc builds a document for node kind k whose optional parts are
+// switched by mask (every combination of presence/absence is enumerated).
+func zzOptionalDoc(k, mask int) (string, int) {
+	switch k {
+	case 0: // operation: type x name x variables x directives
+		ops := []string{"query", "mutation", "subscription"}
+		op := ops[mask%3]
+		m := mask / 3
+		return op + zzOpt(m, 0, " N") + zzOpt(m, 1, "($v: Int = 1 @vd)") + zzOpt(m, 2, " @d(a: 1) @e") + " { f }", 3 * 8
+	case 1: // field: alias x arguments x directives x selection
+		return "{ " + zzOpt(mask, 0, "al: ") + "f" + zzOpt(mask, 1, "(a: 1, b: [])") + zzOpt(mask, 2, " @d(x: {})") + zzOpt(mask, 3, " { g }") + " }", 16
+	case 2: // inline fragment: type condition x directives
+		return "{ ..." + zzOpt(mask, 0, " on T") + zzOpt(mask, 1, " @d(a: \"s\")") + " { f } }", 4
+	case 3: // fragment spread and definition: directives
+		return "{ ...F" + zzOpt(mask, 0, " @d(a: $v)") + " } fragment F on T" + zzOpt(mask, 1, " @fd(b: ENUM)") + " { f }", 4
+	case 4: // variable definition: default x list/non-null wrappers
+		types := []string{"Int", "Int!", "[Int]", "[Int!]!", "[[Int]!]"}
+		t := types[mask%5]
+		m := mask / 5
+		return "query ($v: " + t + zzOpt(m, 0, " = [1, 2]") + ") { f(a: $v) }", 5 * 2
+	case 5: // object type: description x interfaces x directives x fields
+		return zzOpt(mask, 0, "\"\"\"d\"\"\" ") + "type T" + zzOpt(mask, 1, " implements I & J") + zzOpt(mask, 2, " @d(a: 1)") + " {" + zzOpt(mask, 3, " f(a: Int = 1 @ad(x: 1)): Int @fd(y: 2)") + " }", 16
+	case 6: // interface, union, scalar, enum, input, extension, schema, directive definition: directives x description
+		defs := []string{
+			"interface I%s { f: Int }", "union U%s = A | B", "scalar S%s", "enum E%s { A @v(a: 1) B }", "input In%s { f: Int = 1 @fd }",
+			"extend type T%s { f: Int }", "schema%s { query: Q mutation: M }",
+		}
+		d := defs[mask%len(defs)]
+		m := mask / len(defs)
+		out := ""
+		for i := 0; i < len(d); i++ {
+			if d[i] == '%' && i+1 < len(d) && d[i+1] == 's' {
+				out += zzOpt(m, 0, " @d(a: [1, {k: true}])")
+				i++
+				continue
+			}
+			out += string(d[i])
+		}
+		return zzOpt(m, 1, "\"desc\" ") + out, len(defs) * 4
+	case 7: // directive definition: description x arguments x locations
+		return zzOpt(mask, 0, "\"\"\"d\"\"\" ") + "directive @d" + zzOpt(mask, 1, "(a: Int = 1, b: [String!])") + " on FIELD" + zzOpt(mask, 2, " | QUERY | FRAGMENT_SPREAD"), 8
+	case 8: // values: every literal kind nested
+		vals := []string{"1", "-1.5e3", "\"s\"", "true", "false", "ENUM", "$v", "[]", "[1, [2, []]]", "{}", "{a: {b: [{c: 1}]}}", "\"\"\"block\"\"\""}
+		return "query ($v: Int) { f(a: " + vals[mask%len(vals)] + ") }", len(vals)
+	}
+	return "{ f }", 1
+}
+
+// ZZ_C08_optional: every node kind with every combination of its optional
+// parts (name, variables, directives with arguments, alias, arguments,
+// selection, type condition, default value, description, interfaces, fields,
+// locations) survives print -> parse structurally and prints stably.
+func ZZ_C08_optional() {
+	k := zzChoice("kind", 9)
+	_, n := zzOptionalDoc(k, 0)
+	mask := zzChoice("mask", n)
+	text, _ := zzOptionalDoc(k, mask)
+	doc, err := zzParseText(text)
+	if err != nil {
+		// extensions with descriptions etc. may be outside the grammar the parser accepts: not this check's business
+		zzCover("unparsable-template")
+		return
+	}
+	snapshot, _ := zzParseText(text)
+	printed := zzPrintString(doc)
+	zzAssert(reflect.DeepEqual(doc, snapshot), "printing modified the AST")
+	doc2, err := zzParseText(printed)
+	if err != nil {
+		zzFail("printed document does not parse: " + printed)
+	}
+	if !zzSameTree(reflect.ValueOf(doc), reflect.ValueOf(doc2)) {
+		zzFail("re-parsed AST differs from the original for: " + text + " printed as: " + printed)
+	}
+	zzAssert(zzPrintString(doc2) == printed, "print is not stable after one round")
+	zzCover("end")
+}
+
+// ZZ_C08_desc_lines: descriptions built from up to LINES lines, each with 0..2
+// leading blanks (space or tab by choice) and a body that may be empty: the
+// shapes BlockStringValue() treats specially (common indentation, blank first /
+// last / interior lines).
+func ZZ_C08_desc_lines() {
+	nl := 1 + zzChoice("lines", zzParam("LINES", 3))
+	d := ""
+	for i := 0; i < nl; i++ {
+		if i > 0 {
+			d += "\n"
+		}
+		ind := zzChoice("indent"+string(rune('0'+i)), 3)
+		ws := " "
+		if ind > 0 && zzChoice("tab"+string(rune('0'+i)), 2) == 1 {
+			ws = "\t"
+		}
+		for j := 0; j < ind; j++ {
+			d += ws
+		}
+		bodies := []string{"", "x", "x y "}
+		d += bodies[zzChoice("body"+string(rune('0'+i)), len(bodies))]
+	}
+	if d == "" {
+		return
+	}
+	pos := zzChoice("pos", 2)
+	seed, err := zzParseText("\"\"\"T\"\"\"\ntype T {\n  \"\"\"F\"\"\"\n  f: Int\n}")
+	zzAssert(err == nil, "seed parses")
+	td := seed.Definitions[0].(*ast.ObjectDefinition)
+	sv := &ast.StringValue{Kind: "StringValue", Value: d}
+	if pos == 0 {
+		td.Description = sv
+	} else {
+		td.Fields[0].Description = sv
+	}
+	text := zzPrintString(seed)
+	doc2, err := zzParseText(text)
+	if err != nil {
+		zzFail("printed document does not parse: " + text)
+	}
+	td2 := doc2.Definitions[0].(*ast.ObjectDefinition)
+	got := td2.Description
+	if pos == 1 {
+		got = td2.Fields[0].Description
+	}
+	if got == nil || got.Value != d {
+		zzFail("description changed by the round trip: printed " + text)
+	}
+	zzAssert(zzPrintString(doc2) == text, "print is not stable after one round")
+	zzCover("end")
+}
+
+// zzSameTree: structural equality of ASTs in which a nil slice and an empty
+// slice are the same (the parser builds either depending on the production).
+func zzSameTree(a, b reflect.Value) bool {
+	if !a.IsValid() || !b.IsValid() {
+		return a.IsValid() == b.IsValid()
+	}
+	if a.Type() != b.Type() {
+		return false
+	}
+	switch a.Kind() {
+	case reflect.Ptr, reflect.Interface:
+		if a.IsNil() || b.IsNil() {
+			return a.IsNil() == b.IsNil()
+		}
+		return zzSameTree(a.Elem(), b.Elem())
+	case reflect.Slice:
+		if a.Len() != b.Len() {
+			return false
+		}
+		for i := 0; i < a.Len(); i++ {
+			if !zzSameTree(a.Index(i), b.Index(i)) {
+				return false
+			}
+		}
+		return true
+	case reflect.Struct:
+		for i := 0; i < a.NumField(); i++ {
+			if !zzSameTree(a.Field(i), b.Field(i)) {
+				return false
+			}
+		}
+		return true
+	case reflect.String:
+		return a.String() == b.String()
+	case reflect.Bool:
+		return a.Bool() == b.Bool()
+	case reflect.Int:
+		return a.Int() == b.Int()
+	}
+	return reflect.DeepEqual(a.Interface(), b.Interface())
 }
